@@ -14,7 +14,7 @@ from .c01 import parser_errors
 
 PROPERTY = 'C14'
 LEVEL = 'exploration'
-RULE = ('random C01-grammar programs x layout catalogue {random whitespace at token boundaries, tight (no optional whitespace), spaces '
+RULE = ('random C01-grammar programs x layout catalogue {random whitespace at token boundaries, tight (no optional whitespace, none between a keyword and an adjacent bracket), comparison after 'if' without its redundant parentheses, spaces '
         'inside {..} <..> [..], whitespace between a term and its index bracket (both sides of =), explicit [0], comment and blank-line '
         'insertion, parenthesise-and-break at every operator (with trailing comments), statement permutation} and random compositions; '
         'statement-by-statement merge; normal-form fixed point. non-trivial = distinct (script variant) whose text differs from the canonical rendering')
@@ -81,6 +81,7 @@ def variants(prog, rng):
     yield 'inner-spaces', gen.render_program(prog, L(rng, noise=0.0, inner_p=1.0))
     yield 'pre-index-space', gen.render_program(prog, L(rng, noise=0.0, pre_p=1.0))
     yield 'explicit-zero', gen.render_program(explicit_zero(prog))
+    yield 'bare-condition', gen.render_program(prog, L(rng, noise=0.0, bare_p=1.0))
     yield 'comments-blank-lines', gen.render_program(prog, L(rng, noise=0.0, comments=0.9))
     yield 'paren-break', gen.render_program(paren_break(prog), L(rng, noise=0.0, breaks=1.0, comments=0.5))
     yield 'paren-break-noise', gen.render_program(paren_break(prog), L(rng, noise=0.4, breaks=0.6, inner_p=0.5, pre_p=0.5))
@@ -88,7 +89,7 @@ def variants(prog, rng):
         q = explicit_zero(prog) if rng.random() < 0.5 else prog
         q = paren_break(q) if rng.random() < 0.5 else q
         yield 'composition', gen.render_program(q, L(rng, noise=rng.random(), breaks=rng.random() * 0.8, comments=rng.random() * 0.8, tight=rng.random() < 0.3,
-                                                      inner_p=rng.random(), pre_p=rng.random()))
+                                                      inner_p=rng.random(), pre_p=rng.random(), bare_p=rng.choice([0.0, 0.5, 1.0])))
 
 
 def to_script_indexes(equation):
